@@ -151,7 +151,8 @@ class Env:
         self.t0 = 0
         # script queues
         self.q = {kind: [e for e in events if e["e"] == kind]
-                  for kind in ("invoke", "strategy", "poll", "handler", "sleep", "bsleep")}
+                  for kind in ("invoke", "strategy", "poll", "handler", "sleep", "bsleep",
+                               "classify", "rclassify", "emit")}
         self.qi = {kind: 0 for kind in self.q}
         self.raised: list[BaseException] = []
         self.raised_n: list[int] = []
@@ -256,18 +257,24 @@ class Env:
             k, ra = exc.klass, exc.ra
         else:
             k, ra = "UNKNOWN", NONE
-        self.trace.append({"e": "classify", "n": n, "k": k, "ra": ra, "t": self.now()})
+        dur = (self._next("classify") or {}).get("dur", 0)
+        self.trace.append({"e": "classify", "n": n, "k": k, "ra": ra, "dur": dur, "t": self.now()})
+        self.clock.advance(dur)                 # time passes inside the classifier
         return self._classification(k, ra)
 
     def rclassifier(self, value: Any):
         self._fault("rclassifier", attempt=self._val_id(value))
         mine = any(value is v for v in self.values)
         n = value.attempt if mine else NOT_OURS
+        dur = (self._next("rclassify") or {}).get("dur", 0)
         if not mine or value.klass is None:
-            self.trace.append({"e": "rclassify", "n": n, "k": "none", "ra": NONE, "t": self.now()})
+            self.trace.append({"e": "rclassify", "n": n, "k": "none", "ra": NONE, "dur": dur,
+                               "t": self.now()})
+            self.clock.advance(dur)
             return None
-        self.trace.append({"e": "rclassify", "n": n, "k": value.klass, "ra": value.ra,
+        self.trace.append({"e": "rclassify", "n": n, "k": value.klass, "ra": value.ra, "dur": dur,
                            "t": self.now()})
+        self.clock.advance(dur)
         return self._classification(value.klass, value.ra)
 
     # ------------------------------------------------------------------ strategies
@@ -442,9 +449,12 @@ class Env:
                 and prev.get("state") == rec.get("state"):
             merged = dict(rec if kind == "log" else prev)      # the log record carries retry_after_s
             merged["e"] = "emit"
+            merged["dur"] = prev["dur"]
             self.trace[-1] = merged
+            self.clock.advance(prev["dur"])     # time spent inside the hooks of this emission
         else:
             rec["e"] = kind
+            rec["dur"] = (self._next("emit") or {}).get("dur", 0)
             self.trace.append(rec)
 
     def on_metric(self, event, attempt, sleep_s, tags) -> None:
@@ -642,7 +652,7 @@ ENTRY_POINTS = ("Retry", "Policy", "RetryPolicy", "Retry.context", "Policy.conte
 CALL_ONLY = {e for e in ENTRY_POINTS if "context" in e or "decorator" in e}
 
 
-def make_entry(entry: str, env: Env, ctor: dict, call: dict):
+def make_entry(entry: str, env: Env, ctor: dict, call: dict, breaker=None):
     """-> invoke(mode) that performs one call through the named entry point and returns the
     result (sync) or a coroutine (async).  `ctor`/`call` as built by retry_kwargs."""
     import redress.policy as rp
@@ -654,7 +664,7 @@ def make_entry(entry: str, env: Env, ctor: dict, call: dict):
         obj = getattr(rp, base)(**ctor)
     elif base in ("Policy", "AsyncPolicy"):
         inner = (rp.AsyncRetry if is_async else rp.Retry)(**ctor)
-        obj = getattr(rp, base)(retry=inner)
+        obj = getattr(rp, base)(retry=inner, circuit_breaker=breaker)
     elif base in ("RetryPolicy", "AsyncRetryPolicy"):
         obj = getattr(rp, base)(**ctor)
     elif base in ("decorator", "async-decorator"):
@@ -689,7 +699,7 @@ def run_scenario(cfg: dict, events: list[dict], *, entry: str, perm=None, place:
                  async_callbacks: bool = False, hook_fault: dict | None = None,
                  wall: str = "jump", site_fault: dict | None = None, hooks: bool = False,
                  force_mode: str | None = None, timeline: bool = False, atimeout: bool = False,
-                 loop: bool = False) -> list[dict]:
+                 loop: bool = False, breaker_cfg: dict | None = None) -> list[dict]:
     """Execute the scenario through one entry point of the real library; returns the observed
     event list (same vocabulary as M's behaviours)."""
     is_async = entry.startswith(("Async", "async"))
@@ -702,7 +712,11 @@ def run_scenario(cfg: dict, events: list[dict], *, entry: str, perm=None, place:
     global LOOP_MODE
     with vtime.use_clock(env.clock):
         # two policy objects built from the same arguments share the budget; runs alternate
-        invokers = [make_entry(entry, env, ctor, call), make_entry(entry, env, ctor, call)]
+        brk = None
+        if breaker_cfg is not None and entry.split(".")[0] in ("Policy", "AsyncPolicy"):
+            from .policyenv import make_spy_breaker
+            brk = make_spy_breaker(env, breaker_cfg)
+        invokers = [make_entry(entry, env, ctor, call, brk), make_entry(entry, env, ctor, call, brk)]
         for ci, run in enumerate(split_runs(events)):
             invoke = invokers[ci % 2]
             dl = next((e for e in run if e["e"] == "deliver"), {})
